@@ -89,11 +89,12 @@ def run(ch, build):
         su = hist.SUITES[k % 9]
         pool = [c for c in hist.command_pool(ch.rng, True)]
         steps = [{"op": "open", "user": "admin", "password": b"secret".hex(), "priv": 4, "lookup": True, "suites": [list(su)]}]
-        for j in range(8):
+        for j in range(6):
             steps.append({"op": "cmd", "conn": "session", "cmd": ch.rng.choice(pool),
-                          "script": ch.rng.choice([["slow:45"], ["slow:30"], ["busy", "slow:40"], ["slow:35", "busy", "ok"], ["ok"], ["c3", "ok"]])})
-        scns.append({"bmc": conn.default_bmc(seed=330 + k, suites=[[100, su[0], su[1], su[2]]]), "timeout_ms": 60, "udp": True, "steps": steps})
-    outs = conn.run_scenarios(scns)
+                          "script": ch.rng.choice([["slow:260"], ["slow:230"], ["busy", "slow:250"], ["slow:240", "busy", "ok"], ["ok"], ["c3", "ok"]])})
+        # (per-attempt timeout 450 ms, replies after a good half of it: wide margins on both sides, the run shares the machine)
+        scns.append({"bmc": conn.default_bmc(seed=330 + k, suites=[[100, su[0], su[1], su[2]]]), "timeout_ms": 450, "udp": True, "steps": steps})
+    outs = conn.run_scenarios(scns, spread=True)
     hist.replay(ch, scns, outs, (Hook(),), "c09")
     # session-less histories
     scripts = [s for s in hist.all_scripts(hist.ALPHA_SL, depth) if hist.useful(s, False)]
